@@ -23,7 +23,7 @@ for pid in sorted(CLAIMED):
     checks.append({
         "property_id": pid,
         "quick_cmd": f"./bin/uqcheck -property {pid} -tier quick",
-        "thorough_cmd": f"./bin/uqcheck -property {pid} -tier thorough",
+        "thorough_cmd": f"./tools/thorough.sh {pid}",
         "evidence_file": f"/verif/evidence/{pid}.json",
         "replay_cmd_template": "./bin/uqcheck -explain {path}",
         "engine": "uqcheck",
@@ -45,7 +45,7 @@ m = {
         "name": "uqcheck",
         "path": "checker/",
         "serves_properties": sorted(CLAIMED),
-        "kind_free_text": "repository-specific static analyser over go/packages + go/ssa: graph-cut must-pass-through (CUT), who-may-write/call (WMW), effect pairing (PAIR), extracted-table agreement (TABLE), upper-bound provenance (UB), constants vs RFC reference (CONST), nil discipline (NIL), sibling agreement (SIB)",
+        "kind_free_text": "repository-specific static analyser over go/packages + go/ssa: graph-cut must-pass-through (CUT), who-may-write/call (WMW), effect pairing (PAIR), extracted-table agreement (TABLE), Append/Length sibling agreement (LEN), upper-bound provenance (UB), constants vs RFC reference (CONST), nil discipline (NIL), sibling/override agreement (SIB), value-origin slicing (ORG), wait-site vs shutdown reachability (WAIT). Thorough tier (tools/thorough.sh): same rules re-evaluated for GOARCH=386 plus a sensitivity audit applying the confirmed seeded changes of seeded/ to scratch copies of the current tree",
     }],
     "checks": checks,
     "not_applicable": [{"property_id": k, "reason": v} for k, v in sorted(NOT_APPLICABLE.items())],
